@@ -99,6 +99,8 @@ type (
 		Return token.Token // Gib
 		Func   *FuncDecl
 		Value  Expression // nil for void return
+		// type of Value, filled in by the typechecker, to keep information about typedefs
+		ValueType ddptypes.Type
 	}
 
 	TodoStmt struct {
